@@ -284,11 +284,25 @@ def _map_pair(ctx, ty, dk, extras):
 
 
 # ------------------------------------------------------------------------------------------------------------
-def _variant_of_value_term(t):
+def _variant_of_value_term(t, prog=None):
     """wire variant a constructor term produces"""
     if t[0] == "aggr" and t[1] == "ciborium::value::Value":
         return t[2]
     if is_call(t, "core::convert::From::from"):
+        # `Value::from(x)`: ciborium's From impls build the variant of the source type
+        src = None
+        if prog is not None and len(t) > 3 and t[3] and t[3][0] in prog.fns and isinstance(t[3][1], int):
+            c = prog.fns[t[3][0]].blocks[t[3][1]]["term"].get("callee") or {}
+            if len(c.get("args") or []) == 2 and c["args"][0] == "ciborium::value::Value":
+                src = c["args"][1]
+        if src in ("f64", "f32"):
+            return "Float"
+        if src == "bool":
+            return "Bool"
+        if src in ("alloc::string::String", "&str"):
+            return "Text"
+        if src in ("alloc::vec::Vec<u8>", "&[u8]"):
+            return "Bytes"
         return "Integer"
     return None
 
@@ -364,7 +378,7 @@ def _enum_pair(ctx, ty):
         for term, dbb in codec.ok_payload_arms(e, pe):
             pvs = path_variants(prog, pe, conditions(e, pe, dbb))
             sv = pvs.get(("param", 0))
-            wv = _variant_of_value_term(term)
+            wv = _variant_of_value_term(term, prog)
             if sv and len(sv) == 1 and wv:
                 v = next(iter(sv))
                 if not _own_payload(term, v):
